@@ -216,3 +216,43 @@ Definition split_name (n : list byte) : list byte * option (list byte) :=
        | Some O => (n, None)
        | Some i => (firstn i n, Some (skipn (S i) n))
        end.
+
+(* ---------------- C08: the documented joining rules (Windows) ---------------- *)
+Definition removelast_w (l : list wcomp) : list wcomp := rev (tl (rev l)).
+Definition sp_prefix (l : list byte) : option (list byte * wprefix) :=
+  match wspec l with WPrefix raw k :: _ => Some (raw, k) | _ => None end.
+Definition sp_has_prefix (l : list byte) : bool := match sp_prefix l with Some _ => true | None => false end.
+Definition sp_prefix_raw (l : list byte) : list byte := match sp_prefix l with Some (raw, _) => raw | None => [] end.
+Definition k_verbatim (k : wprefix) : bool :=
+  match k with Verbatim _ | VerbatimUNC _ _ | VerbatimDisk _ => true | _ => false end.
+Definition sp_verbatim (l : list byte) : bool := match sp_prefix l with Some (_, k) => k_verbatim k | None => false end.
+Definition sp_rooted (l : list byte) : bool := match wspec l with WC Root :: _ => true | _ => false end.
+Definition sp_bare_drive (l : list byte) : bool := match wspec l with [WPrefix _ (Disk _)] => true | _ => false end.
+Definition ends_in_sep (l : list byte) : bool := match rev l with b :: _ => s_sep_any b | [] => false end.
+(* joining onto a verbatim-prefixed path works on components: "." is dropped, ".." cancels a
+   preceding normal component (never the root or the prefix), a root keeps only the prefix *)
+Definition vstep (acc : list wcomp) (c : wcomp) : list wcomp :=
+  if k_is_cur c then acc
+  else if k_is_parent c then
+    match last_w acc with Some x => if k_is_normal x then removelast_w acc else acc | None => acc end
+  else if k_is_root c then firstn 1 acc ++ [c]
+  else acc ++ [c].
+(* ... and the result is written out with single primary separators *)
+Fixpoint vrender (cs : list wcomp) (need_sep : bool) : list byte :=
+  match cs with
+  | [] => []
+  | c :: r =>
+      (if need_sep && negb (k_is_root c) then [92] else []) ++ wc_bytes c ++
+      vrender r (match c with WC Root => false | WPrefix _ (Disk _) => false | _ => true end)
+  end.
+Definition join_spec (a b : list byte) : list byte :=
+  match b with
+  | [] => a                                                     (* an empty b changes nothing *)
+  | _ =>
+      if sp_has_prefix b then b                                 (* b has a prefix: b itself *)
+      else if sp_verbatim a then vrender (fold_left vstep (wspec b) (wspec a)) false
+      else if sp_rooted b then sp_prefix_raw a ++ b             (* b rooted: a's prefix followed by b *)
+      else if (match a with [] => true | _ => false end) || ends_in_sep a || sp_bare_drive a
+           then a ++ b
+           else a ++ 92 :: b                                    (* exactly one separator inserted *)
+  end.
